@@ -313,6 +313,18 @@ var nativeFault func()
 // that are still alive (blocked for ever counts as alive) and whose top-level
 // function name contains substr.  Natively it inspects the goroutine dump.
 func LiveThreads(substr string) int {
+	// natively goroutines that were told to stop need a moment to go away (much
+	// longer on a loaded machine): poll for up to ten seconds before reporting
+	// survivors (under the interpreter this is an intrinsic over the thread table)
+	count := liveThreadsNow(substr)
+	for k := 0; k < 100 && count > 0; k++ {
+		time.Sleep(100 * time.Millisecond)
+		count = liveThreadsNow(substr)
+	}
+	return count
+}
+
+func liveThreadsNow(substr string) int {
 	buf := make([]byte, 1<<22)
 	n := runtime.Stack(buf, true)
 	count := 0
